@@ -179,6 +179,8 @@ def design_jobs(tier, seed):
         'intern_scalar': dict(module='MCIntern', cfg='MCIntern_scalar.cfg' if tier == 'quick' else 'MCIntern_scalar_full.cfg', tag='c17-intern-scalar', coverage=True, deadlock=False, workers=nworkers, timeout=1200),
         'intern_array': dict(module='MCIntern', cfg='MCIntern_array.cfg' if tier == 'quick' else 'MCIntern_array_full.cfg', tag='c17-intern-array', deadlock=False, workers=nworkers, timeout=1200),
         'intern_pyeq': dict(module='MCIntern', cfg='MCIntern_scalar_pyeq.cfg', tag='c17-intern-pyeq', deadlock=False, workers=1, timeout=600),
+        # design mutant: data that the canonical dtype cannot represent is cast silently instead of refused
+        'intern_lossy': dict(module='MCIntern', cfg='MCIntern_array_lossy.cfg', tag='c17-intern-lossy', deadlock=False, workers=1, timeout=600),
     }
     if tier != 'quick':
         # random deeper histories (8 operations)
@@ -203,6 +205,9 @@ def finish_design(rep, res, tier):
     for name in ('fixed', 'code', 'intern_scalar', 'intern_array'):
         rep.add_tlc(res[name], exhaustive=True)
     rep.add_tlc(res['intern_pyeq'])
+    rep.add_tlc(res['intern_lossy'])
+    if res['intern_lossy'].violated != 'ExactArgs':
+        raise RuntimeError('spec mutant Intern/Lossy=wrap should violate ExactArgs, got {!r}'.format(res['intern_lossy'].violated))
     for name in ('intern_scalar_sim', 'intern_array_sim'):
         if name in res:
             rep.add_tlc(res[name], exhaustive=None)
@@ -531,8 +536,12 @@ class ArrayTarget:
         import numpy
         from nutils import types
         src, vals = a.split(':')
+        if vals == 'big':        # uint64 values that int64 cannot represent
+            return types.arraydata(numpy.array([2**64 - 1, 2**63], dtype='<u8'))
+        if vals == 'third':      # long double precision that float64 cannot represent
+            return types.arraydata(numpy.array([1, 0], dtype=numpy.longdouble) / numpy.longdouble(3))
         data = [int(x) for x in vals.split(',')]
-        dt = dict(i64='<i8', i32='<i4', u8='|u1', bool=bool, f64='<f8', f32='<f4')
+        dt = dict(i64='<i8', i32='<i4', u8='|u1', bool=bool, f64='<f8', f32='<f4', u64='<u8')
         if src == 'list':
             return types.arraydata(data)
         if src == 'wrap':
@@ -554,7 +563,7 @@ def replay_intern(rep, target, behaviours):
     from nutils import types
     # reference hashes: each canonical argument tuple constructed alone in an empty table
     ref = {}
-    wants = sorted({s['want'] for b in behaviours for s in b['hist'] if s['want']})
+    wants = sorted({s['want'] for b in behaviours for s in b['hist'] if s['want'] and s['want'] != 'REJECT'})
     for c in wants:
         gc.collect()
         o = target.fresh(c)
@@ -572,7 +581,17 @@ def replay_intern(rep, target, behaviours):
         bad = None
         for si, s in enumerate(b['hist']):
             op = s['op']
-            if op in ('new', 'load'):
+            if op == 'refuse':
+                # the model: no object can carry this data exactly, the constructor must raise
+                try:
+                    o = target.call(s['a'])
+                except (ValueError, TypeError, OverflowError):
+                    got = dict(obj=0, args='')
+                else:
+                    bad = (si, 'lossy-accepted: {} was accepted and carries {}'.format(s['a'], target.carried(o)))
+                    del o
+                    break
+            elif op in ('new', 'load'):
                 try:
                     o = target.call(s['a']) if op == 'new' else pickle.loads(blobs[0])
                 except Exception as e:
